@@ -8,21 +8,26 @@ from . import c13
 EXPLANATION = """
 [TABLE] Bech32 charset, its inverse map, separator, generator constants, both checksum constants, maximum length 90,
 HRP<->network map. [TERM] bech32_polymod's loop body, bech32_hrp_expand, bech32_create_checksum and
-bech32_verify_checksum equal BIP173's reference. [DOM+REGION] decoder accept set: parse_bech32 / assert_valid_bech32
-contain every BIP173 rejection (length <= 90 as an exact region, single case, separator, non-empty HRP with characters in
-[33,126] and length [1,83], 6-character checksum, data characters in the charset, polymod == constant); decode_segwit_addr
-selects the constant by witness version (1 iff version 0, else 0x2bc830a3) and accepts exactly versions 0..16 (all 32
-values of the version character); bech32_decode over the number of 5-bit groups 1..72: refuses more than 4 padding bits,
-tests the padding bits arithmetically (mask 2^pad - 1) and returns the value shifted by pad as (5n - pad)/8 bytes;
-assert_valid_segwit over (hrp, version, program length 0..42). [REGION] encoder: for versions 0,1,16, every allowed program
+bech32_verify_checksum equal BIP173's reference; the polymod step is decided per value 0..31 of the top five bits (bit tests
+or a 32-entry table). [CELLS] decoder accept set as decision tables over input cells -- a cell fixes the value CLASS of chosen
+bytes and the truth of the remaining predicates; a path condition is decided by its truth table over the whole cell, whatever
+its syntactic form: parse_bech32 (length 89/90/91/200; case x number of separators x empty HRP), assert_valid_bech32 (HRP
+length 0/1/2/83/84, data length 0/5/6/7/14, one HRP character outside [33,126] or one data character outside the charset at
+each interesting position, checksum mismatch; the checksum call's arguments), decode_segwit_addr (data length x all 32 version
+characters + foreign characters: constant 1 iff version 0 else 0x2bc830a3, versions 0..16, program = bech32_decode(data[1:-6])).
+[BIT-LEVEL] bech32_decode per number of characters 1..72 on an arbitrary data part: more than 4 padding bits refused, the
+padding bits tested against zero, result = the 5-bit groups most significant first shifted right by the padding, compared
+bit by bit (one integer, Horner, or a streaming accumulator are one program). assert_valid_segwit over (hrp, version,
+program length 0..42). [REGION] encoder: for versions 0,1,16, every allowed program
 length and the three networks no guard on the segwit_addr -> bech32_encode path fires, the HRP/version character/constant
 are the specified ones and the number of 5-bit groups emitted is ceil(8*len/5) -- derived from the length, never from the
 value. [EXC] totality: every dict lookup and sequence index on the path of is_segwit_addr / is_addr is discharged by a
 dominating membership / non-emptiness / for-all fact, and no explicit error other than the caught AssertionError escapes;
 is_base58check catches every exception.
 """
-NOT_DECIDED = ("that the 8->5 and 5->8 regrouping loops are mutually inverse for all values (numeric loop invariant); 'valid => accepted' "
-               "beyond the encoder-domain and padding obligations; primitive raise sites other than dict lookups and sequence indexing")
+NOT_DECIDED = ("the 8->5 / 5->8 regroupings outside the enumerated lengths (encoder: programs of 2,3,5,20,32,33,40 bytes; decoder: 1..72 characters; "
+               "within them both are compared bit by bit with BIP173); the polymod recurrence as a BCH code (only its step is compared); "
+               "primitive raise sites other than dict lookups and sequence indexing")
 ASSUMPTIONS = ["assert statements are live", "arguments are byte strings", "bytes.split returns at least one element"]
 
 B = "bits.bips.bip173."
@@ -439,14 +444,24 @@ def check_encoder(ctx, oid="C06.3"):
     R = ctx.R
     fi = ctx.fn("bits.utils.segwit_addr")
     ev = ctx.evaluator(opaque={B + "bech32_create_checksum"})
-    data = P("data", tm.BYTES)
+    from .. import bitvec
     hrps = {"mainnet": b"bc", "testnet": b"tb", "regtest": b"bcrt"}
     n = 0
+    dname = fi.params()[0]
+
+    def group_of(p):
+        """The 5-bit value g of a data character written CHARS[g:g+1] or bytes([CHARS[g]]); None for anything else."""
+        p = rules.unfz(p)
+        if isinstance(p, T) and p.op == "slice" and p.args[0] == CHARS and tm.veq(p.args[2], tm.add([1, p.args[1] if p.args[1] is not None else 0])):
+            return p.args[1] if p.args[1] is not None else 0
+        if isinstance(p, T) and p.op == "i2b" and p.args[1] == 1 and isinstance(p.args[0], T) and p.args[0].op == "idx" and p.args[0].args[0] == CHARS:
+            return p.args[0].args[1]
+        return None
     for net, hrp in hrps.items():
         for v in (0, 1, 16):
             for L in ((20, 32) if v == 0 else (2, 3, 5, 20, 32, 33, 40)):
-                ev.bind = {tm.length(data): L}
-                s = ev.run(fi, {"witness_version": v, "network": net})
+                data = tm.sized("program", L)  # an arbitrary witness program of exactly L bytes
+                s = ev.run(fi, {dname: data, "witness_version": v, "network": net})
                 kind, val = rules.outcome(s)
                 label = "%s v%d program %d bytes" % (net, v, L)
                 n += 1
@@ -460,8 +475,8 @@ def check_encoder(ctx, oid="C06.3"):
                 okh = isinstance(parts[0], bytes) and parts[0] == head
                 R.check(oid, "TERM-EQ", fi, label + ": hrp || '1' || version character", okh, "address starts with %s, expected %s" % (tm.show(parts[0])[:60], head))
                 body = parts[1:]
-                chars = [p for p in body if isinstance(p, T) and p.op == "slice" and p.args[0] == CHARS and tm.veq(p.args[2], tm.add([1, p.args[1]]))]
-                cks = [p for p in body if p not in chars]
+                chars = [p for p in body if group_of(p) is not None]
+                cks = [p for p in body if group_of(p) is None]
                 okg = len(chars) == groups
                 R.check(oid, "TERM-EQ", fi, label + ": exactly ceil(8*len/5) = %d data characters, independent of the value" % groups, okg,
                         "the number of data characters is %s (value-dependent or wrong), expected %d" % (len(chars) if chars else "not a fixed sequence", groups),
@@ -471,7 +486,13 @@ def check_encoder(ctx, oid="C06.3"):
                     pad = groups * 5 - 8 * L
                     val_int = tm.b2i(data, "big")
                     shifted = tm.binop("shl", val_int, pad) if pad else val_int
-                    okv = all(tm.veq(ch.args[1], tm.binop("band", tm.binop("shr", shifted, 5 * (groups - i - 1)), 0x1F)) for i, ch in enumerate(chars))
+                    okv = True
+                    for i, ch in enumerate(chars):
+                        want_g = tm.binop("band", tm.binop("shr", shifted, 5 * (groups - i - 1)), 0x1F)
+                        same = bitvec.same_int(group_of(ch), want_g, lambda a: None)  # bit by bit: any regrouping scheme
+                        if same is None:
+                            same = tm.veq(group_of(ch), want_g)
+                        okv = okv and same
                     R.check(oid, "TERM-EQ", fi, label + ": group i = (value << pad) >> 5*(n-1-i) & 31", okv, "5-bit group extraction differs")
                 const = 1 if v == 0 else M_CONST
                 okc = any(tm.contains(p, lambda t: isinstance(t, T) and t.op == "app" and t.args[0] == B + "bech32_create_checksum" and t.args[1][2] == const) for p in cks)
@@ -499,7 +520,10 @@ def _forall_covers(facts, seq, about_elem):
             continue
         d0, s0, cond = f.args
         s0 = rules.unfz(s0)
-        covers = tm.veq(s0, seq) or (isinstance(seq, T) and seq.op == "slice" and tm.veq(seq.args[0], s0))
+        inner = seq
+        while isinstance(inner, T) and inner.op == "slice" and not tm.veq(inner, s0):
+            inner = rules.unfz(inner.args[0])  # any (nested) slice of the sequence the fact is about
+        covers = tm.veq(s0, inner)
         if not covers:
             continue
         e = tm.bv(d0, tm.INT)
@@ -564,6 +588,10 @@ def check_totality(ctx, oid="C06.1"):
         fi = ctx.fn(q)
         s = ev.run(fi)
         esc = [e for e in s.raises()]
+        hr = rules.raising_handlers(fi.node)
+        R.check(oid, "EXC", fi, "%s's exception handlers cannot themselves raise" % q.split(".")[-1], not hr,
+                "%s can raise from inside an except branch: %s" % (q.split(".")[-1], hr[0][1] if hr else ""), line=hr[0][0].lineno if hr else None,
+                example="a rejected string that is not valid UTF-8")
         R.check(oid, "EXC", fi, "no explicit error escapes %s" % q.split(".")[-1], not esc,
                 "%s lets %s escape instead of returning False" % (q.split(".")[-1], sorted({e.exc for e in esc})),
                 example="an input that triggers %s" % (esc[0].exc if esc else ""))
